@@ -232,3 +232,46 @@ Theorem C05_marshal_map_code_is_enc : forall o st, enc_view st o ->
   enc o v key <> Panic.
 Proof. exact marshal_map_code_is_enc_translated. Qed.
 Print Assumptions C05_marshal_map_code_is_enc.
+
+(* ---- the validity check of the four encoder ENTRY POINTS (Map.Xml, Map.XmlIndent, MapSeq.Xml, MapSeq.XmlIndent), translated from
+   the current sources by go2v: for EVERY behaviour of the encoder they call (ext) and of encoding/xml's tokenizer (dec), with
+   xmlCheckIsValid on, bytes returned with a nil error are bytes whose token stream ends with io.EOF and no error; bytes the
+   tokenizer rejects give (nil, error); with the check off the encoder's bytes and error are returned as they are
+   (GenProofs/PureG25.v).  [accepts dec b]: snd (dec b) = TermEOF. *)
+From Mxj Require Import GenProofs.PureG25.
+
+Theorem C05_map_xml_valid : forall (ext : enc_fn) dec st m rt b, g_xmlCheckIsValid st = true ->
+  fn_Map_Xml ext dec st m rt = Ret (b, None) -> accepts dec b.
+Proof. exact map_xml_valid. Qed.
+Print Assumptions C05_map_xml_valid.
+
+Theorem C05_map_xmlindent_valid : forall (ext : enc_fn) dec st m prefix indent rt b, g_xmlCheckIsValid st = true ->
+  fn_Map_XmlIndent ext dec st m prefix indent rt = Ret (b, None) -> accepts dec b.
+Proof. exact map_xmlindent_valid. Qed.
+Print Assumptions C05_map_xmlindent_valid.
+
+Theorem C05_mapseq_xml_valid : forall (ext : enc_fn) dec st m rt b, g_xmlCheckIsValid st = true ->
+  fn_MapSeq_Xml ext dec st m rt = Ret (b, None) -> accepts dec b.
+Proof. exact mapseq_xml_valid. Qed.
+Print Assumptions C05_mapseq_xml_valid.
+
+Theorem C05_mapseq_xmlindent_valid : forall nmx (ext : enc_fn) dec st m prefix indent rt b, g_xmlCheckIsValid st = true ->
+  fn_MapSeq_XmlIndent nmx ext dec st m prefix indent rt = Ret (b, None) -> accepts dec b /\ exists mv, nmx b [] = Ok mv.
+Proof. exact mapseq_xmlindent_valid. Qed.
+Print Assumptions C05_mapseq_xmlindent_valid.
+
+(* the whole verdict with the check on: the tokenizer's, whatever error the encoder itself returned (an encoder error is replaced
+   by the verdict on the bytes written before it: check_swallows_encoder_error in PureG25.v; encoding/xml rejects those bytes, which
+   end inside a start tag or leave an element open - an assumption about the environment, observed by the correspondence run) *)
+Theorem C05_entry_check_on : forall (ext : enc_fn) dec st m rt e b i c p mm t, g_xmlCheckIsValid st = true ->
+  xml_call ext m rt = Some (e, (b, i, c, p, mm, t)) ->
+  fn_Map_Xml ext dec st m rt = (if acceptb dec b then Ret (b, None) else Ret ([], Some EOther)) /\
+  fn_MapSeq_Xml ext dec st m rt = (if acceptb dec b then Ret (b, None) else Ret ([], Some EOther)).
+Proof. exact entry_check_on. Qed.
+Print Assumptions C05_entry_check_on.
+
+Theorem C05_entry_check_off : forall (ext : enc_fn) dec st m rt e b i c p mm t, g_xmlCheckIsValid st = false ->
+  xml_call ext m rt = Some (e, (b, i, c, p, mm, t)) ->
+  fn_Map_Xml ext dec st m rt = Ret (b, e) /\ fn_MapSeq_Xml ext dec st m rt = Ret (b, e).
+Proof. exact entry_check_off. Qed.
+Print Assumptions C05_entry_check_off.
